@@ -303,6 +303,8 @@ def op_exec(req):
     buf = StringIO()
     old = sys.stdout
     ns = {'__name__': '__verif_main__'}
+    if req.get('emit'):
+        ns['emit'] = lambda v: sys.stdout.write(repr(v) + '\n')
     try:
         code = compile(src, 'prog', 'exec', dont_inherit=True) if PY2 or 'optimize' not in req else \
             compile(src, 'prog', 'exec', dont_inherit=True, optimize=req['optimize'])
